@@ -9,6 +9,7 @@ import GB.C20.ProofsStSoundMain
 import GB.C20.ProofsGwSoundMain
 import GB.C20.ProofsClasses
 import GB.C20.ProofsRecog
+import GB.C20.BridgeProofs
 import GB.Generated.Facts
 /-
   C20 — property theorems. Helper lemmas live in Proofs*.lean.
@@ -388,3 +389,101 @@ theorem C20_gw_legacy_accept_fails :
     (gwParse [47, 47]).toOption.isNone = true ∧
     (gwParse [47, 123, 97, 61, 47, 125]).toOption.isNone = true := by
   decide
+
+
+/-! ### the routing chain: C20 (parser) → C03 (compile, NewPattern, matcher) → C06 (table after any history)
+
+  `toC03` (Bridge.lean) maps the AST of the gwbased parser model to the AST of the C03 slice; `gwC03` is
+  `fun s => (gwParse s).toOption.map toC03`, the `parse` parameter of `C06_pattern_with_matcher`. -/
+
+/-- the relaxed grammar is unambiguous as well -/
+theorem C20_grammar_unambiguous_relaxed (s : Bytes) (t t' : Tmpl) (h : DerivesRelaxed s t) (h' : DerivesRelaxed s t') :
+    t = t' := by
+  have h1 := specParseWith_complete true t h.1
+  have h2 := specParseWith_complete true t' h'.1
+  rw [h.2] at h1
+  rw [h'.2, h1] at h2
+  exact Option.some.inj h2
+
+/-- what the adapter returns for an accepted template is the grammar's abstract syntax (unique by
+    `C20_grammar_unambiguous_relaxed`) written in C03's AST -/
+theorem C20_gw_parse_is_grammar (s : Bytes) (T : C03.Tmpl) :
+    gwC03 s = some T ↔ ∃ t, DerivesRelaxed s t ∧ T = tmplC03 t :=
+  gwC03_some_iff s T
+
+/-- every template gwbased accepts has the parser shape the C03 theorems assume (`C03_compiled_matcher`, …) -/
+theorem C20_gw_parse_shape_ok (s : Bytes) (g : GwTemplate) (h : gwParse s = .ok g) : (toC03 g).ShapeOk := by
+  have : gwC03 s = some (toC03 g) := by simp [gwC03, h, Except.toOption]
+  exact (gwC03_parserOk s _ this).1
+
+/-- **the hypothesis of the C06×C03 composition holds for the gwbased parser model** -/
+theorem C20_gw_parser_ok : GB.C06.ParserOk (fun s => (gwParse s).toOption.map toC03) :=
+  gwC03_parserOk
+
+/-- **The routing chain, closed.** Binding templates are TEXTS (byte strings) in the descriptions. After any
+    history `h` of Watch / description update / Close events, for HTTP method `m` and request path `/p`:
+
+    1. `RouteHTTP` (C06's table lookup running C03's compiled matcher on templates parsed by gwbased) returns the
+       binding `(n, v, r)` with captures `c` iff target `n` has a pooled connection and `(n, v, r)` is the FIRST entry
+       of the table `tbl` whose template `PathMatches` the raw path segments (C03's declarative matching relation),
+       capturing `c`;
+    2. `tbl` holds, in the order targets joined the list and in description order, exactly one entry per route of
+       HTTP method `m` of the latest description of a listed (live) target whose template text is derivable in the
+       relaxed grammar — carrying the grammar's abstract syntax of that text (`tmplC03 t`);
+    3. a binding is kept by `buildPatternRoutes` (`valid`) iff its text is derivable in the relaxed grammar and has at
+       most one `**` (`runtime.NewPattern` rejects more); every other binding is skipped.
+
+    No parser hypothesis is left: `ParserOk` is `C20_gw_parser_ok`. -/
+theorem C20_route_chain (pool : C06.Name → Bool) (h : List C06.Op) (m : C06.HMethod) (p : Bytes) :
+    let st := C06.PatState.init.run (C06.validC gwC03) h
+    let tbl := C06.tableOfGroups gwC03 m
+      ((C06.orderOf st m).filterMap (C06.specGroup (C06.validC gwC03) (C06.latestOf h) m))
+    (∀ n v r c, C06.routeHTTPm gwC03 pool st.static m (47 :: p) = .found n v r c ↔
+        pool n = true ∧ C03.FirstMatch tbl m (C03.splitSlash p) (n, v, r) c) ∧
+    (∀ e, e ∈ tbl ↔ ∃ n d r t, n ∈ C06.orderOf st m ∧ (C06.latestOf h).desc n = some d ∧
+        r ∈ C06.allRoutes (C06.validC gwC03) d ∧ r.httpMethod = m ∧ DerivesRelaxed r.pattern t ∧
+        e = ((n, d.ver, r), m, tmplC03 t)) ∧
+    (∀ pat, C06.validC gwC03 pat = true ↔ ∃ t, DerivesRelaxed pat t ∧ C03.deepCount (tmplC03 t).segs ≤ 1) := by
+  intro st tbl
+  refine ⟨?_, ?_, validC_gwC03_iff⟩
+  · intro n v r c
+    exact C06_pattern_with_matcher gwC03 gwC03_parserOk pool h m p n v r c
+  · intro e
+    rw [C06_matcher_table_entries gwC03 (C06.latestOf h) (C06.orderOf st m) m e]
+    constructor
+    · rintro ⟨n, d, r, T, h1, h2, h3, h4, h5, h6⟩
+      obtain ⟨t, ht, rfl⟩ := (gwC03_some_iff _ T).mp h5
+      exact ⟨n, d, r, t, h1, h2, h3, h4, ht, h6⟩
+    · rintro ⟨n, d, r, t, h1, h2, h3, h4, h5, h6⟩
+      exact ⟨n, d, r, tmplC03 t, h1, h2, h3, h4, (gwC03_some_iff _ _).mpr ⟨t, h5, rfl⟩, h6⟩
+
+/-- the error side of the chain: Unavailable iff the first match's target has no pooled connection,
+    InvalidArgument only for a malformed percent-escape in a raw path segment, NotFound iff no kept binding of a
+    live target's latest description matches -/
+theorem C20_route_chain_status (pool : C06.Name → Bool) (h : List C06.Op) (m : C06.HMethod) (p : Bytes) (code : Nat)
+    (hs : C06.routeHTTPm gwC03 pool (C06.PatState.init.run (C06.validC gwC03) h).static m (47 :: p) = .status code) :
+    let tbl := C06.tableOfGroups gwC03 m
+      ((C06.orderOf (C06.PatState.init.run (C06.validC gwC03) h) m).filterMap
+        (C06.specGroup (C06.validC gwC03) (C06.latestOf h) m))
+    (code = C06.codeUnavailable ∧ ∃ n v r c, pool n = false ∧ C03.FirstMatch tbl m (C03.splitSlash p) (n, v, r) c) ∨
+    (code = C06.codeInvalidArgument ∧ ∃ s ∈ C03.splitSlash p, ¬ C03.WellEscaped s) ∨
+    (code = C06.codeNotFound ∧ ¬ ∃ i c, C03.FirstMatch tbl m (C03.splitSlash p) i c) :=
+  C06_pattern_with_matcher_status gwC03 gwC03_parserOk pool h m p code hs
+
+/-! non-vacuity of the chain, evaluated by the kernel through the real models (gwbased parser model → `Compile` →
+    `NewPattern` → `MatchAndEscape` → table): one target whose method has the bindings `GET /a/{x}` and `GET //`.
+    The second text is not derivable (D19: it used to be read as `/*`) and is skipped. -/
+section
+def chainDesc : C06.Desc :=
+  ⟨[116], 1, [⟨[83], [⟨[47, 83, 47, 77], [⟨[71, 69, 84], [47, 97, 47, 123, 120, 125]⟩, ⟨[71, 69, 84], [47, 47]⟩]⟩]⟩]⟩
+
+set_option maxRecDepth 100000 in
+example : C06.routeHTTPm gwC03 (fun _ => true)
+    (C06.PatState.init.run (C06.validC gwC03) [.watch [116], .update [116] chainDesc]).static [71, 69, 84] [47, 97, 47, 98] =
+      .found [116] 1 ⟨0, 0, some 0, [71, 69, 84], [47, 97, 47, 123, 120, 125]⟩ [([120], [98])] := by decide
+
+set_option maxRecDepth 100000 in
+example : C06.routeHTTPm gwC03 (fun _ => true)
+    (C06.PatState.init.run (C06.validC gwC03) [.watch [116], .update [116] chainDesc]).static [71, 69, 84] [47, 120] =
+      .status C06.codeNotFound := by decide
+end
